@@ -14,6 +14,19 @@ TV = 'translation_validation'
 
 # id -> (category, text, design_ref, level_note, technique)
 CLAIMS = {
+    'C10': (MC,
+            'MC_C10 generates pairs (old, new) on the heap machine: new is a deep copy of old changed by up to two '
+            'generic edits (argument value changed / added / removed, callable swapped, tag set changed, a reference '
+            'redirected to any other object -- alias created or broken, subtree moved --, a target split into a '
+            'fresh copy, container items changed); TLC checks that the plain copy is equivalent (its diff must be '
+            'empty) and that editing new never touches old. For every pair the real build_diff / apply_diff are run '
+            'on a deep copy of old: the result must project to new (callables, arguments, tags, sharing), in place, '
+            'with new and the diff unmodified; unchanged pairs must give an empty diff. Random unrelated pairs and '
+            'pairs sharing objects by identity are added.',
+            'DESIGN.md §5 C10',
+            'Trusted: TLC, harness projection. Known finding: Buildables with positional (integer-keyed) arguments '
+            'make build_diff raise TypeError.',
+            'TLA+ pair/edit machine; exhaustive pairs from TLC replayed through build_diff/apply_diff'),
     'C09': (MC,
             'Three TLA+ pieces: (1) FdlSerial models ARBITRARY documents (object tables of leaves, pyrefs, lists with '
             'shared objects) and symbol statuses (approved / refused by allows_import / value rejected by '
